@@ -279,6 +279,7 @@ func genLC(repo string) (src string, notes []string, err error) {
 		{"Keeper.unfreezeClient", "unfreezeClient"},
 		{"IterateConsensusStateDescending", "iterateConsensusStateDescending"},
 		{"IBCMessagesDecorator.AnteHandle", "anteHandle"},
+		{"checkedMsgsTravelWithIBCOnly", "checkedMsgsTravelWithIBCOnly"},
 		{"IBCMessagesDecorator.HandleMsgUpdateClient", "handleMsgUpdateClient"},
 		{"IBCMessagesDecorator.getSequencer", "getSequencer"},
 		{"getHeader", "getHeader"},
